@@ -10,53 +10,55 @@ using tulz::LocaleInfo;
 #endif
 static bool same(const char *a, const char *b) { return strcmp(a, b) == 0; }
 static void check_fallback(LocaleInfo::Info &r) {
+  __vf_check(r.error != nullptr, "fallback: error is set");
   __vf_check(r.languageCode != nullptr && r.countryCode != nullptr && r.country != nullptr, "fallback: every field is set");
   __vf_check(same(r.languageCode, "en") && same(r.countryCode, "GB") && same(r.country, "United Kingdom"), "fallback: en / GB / United Kingdom");
   __vf_check(r.languages.size() == 1 && same(r.languages.front(), "English"), "fallback: languages = {English}");
 }
-static void check_success(LocaleInfo::Info &r, const char *lang, const char *country) {
-  // every returned pointer refers to a table entry (pointer identity), and the entries are the ones named by the input
-  int ci = -1; for (int j = 0; j < LocaleInfo::countiesCount; j++) if (r.countryCode == LocaleInfo::countryInfo[j].code && r.country == LocaleInfo::countryInfo[j].value) ci = j;
-  __vf_check(ci >= 0, "success: country and countryCode point at one country table entry");
-  int li = -1; for (int i = 0; i < LocaleInfo::languagesCount; i++) if (r.languageCode == LocaleInfo::languageInfo[i].code) li = i;
-  __vf_check(li >= 0, "success: languageCode points at a language table entry");
-  __vf_check(!r.languages.empty(), "success: at least one language name");
-  if (ci >= 0 && li >= 0) {
-    __vf_check(same(r.countryCode, country) || same(r.country, country), "success: the country is the one named in the input");
-    bool by_code = same(r.languageCode, lang);
-    int first = -1;
-    for (const char *l : r.languages) {
-      int k = -1; for (int i = 0; i < LocaleInfo::languagesCount; i++) if (l == LocaleInfo::languageInfo[i].value) k = i;
-      __vf_check(k >= 0, "success: every language name points at a language table entry");
-      if (first < 0) first = k;
-    }
-    if (first >= 0) {
-      __vf_check(same(LocaleInfo::languageInfo[first].code, r.languageCode), "success: the language names belong to the returned code");
-      if (!by_code) __vf_check(same(LocaleInfo::languageInfo[first].value, lang) && r.languages.size() == 1, "success: a language given by name returns that name");
-    }
+// reference lookup, written from the documentation of get(): by code -> every table name with that code (table order),
+// by name -> that name. The result is compared by POINTER identity with the table entries (no dereference of returned pointers).
+struct Ref { bool success; int code_idx; int names[8]; int n; int country_idx; };
+static Ref reference(const char *s) {
+  Ref x; x.success = false; x.code_idx = -1; x.n = 0; x.country_idx = -1;
+  int u = -1, d = LEN;
+  for (int i = 0; i < LEN; i++) if (s[i] == '_' && u < 0) u = i;
+  for (int i = LEN - 1; i >= 0; i--) if (s[i] == '.') d = i;
+  if (!(u >= 0 && u < d && u < 64 && d - u - 1 < 64)) return x;   // not of the form language_COUNTRY[.charset] (or a part does not fit)
+  char lang[LEN + 1], country[LEN + 1];
+  for (int i = 0; i <= LEN; i++) lang[i] = i < u ? s[i] : 0;
+  for (int i = 0; i <= LEN; i++) country[i] = (u + 1 + i < d) ? s[u + 1 + i] : 0;
+  for (int i = 0; i < LocaleInfo::languagesCount; i++) {
+    if (same(LocaleInfo::languageInfo[i].code, lang)) { x.code_idx = i; if (x.n < 8) x.names[x.n++] = i; }
+    else if (same(LocaleInfo::languageInfo[i].value, lang)) { x.code_idx = i; if (x.n < 8) x.names[x.n++] = i; break; }
   }
+  if (x.n == 0) return x;
+  for (int j = 0; j < LocaleInfo::countiesCount; j++) if (same(LocaleInfo::countryInfo[j].code, country) || same(LocaleInfo::countryInfo[j].value, country)) { x.country_idx = j; break; }
+  x.success = x.country_idx >= 0;
+  return x;
 }
 extern "C" void harness(void) {
   char s[LEN + 1];
-  for (int i = 0; i < LEN; i++) { s[i] = (char) __vf_nondet_uchar(); __vf_assume(s[i] != 0); }
+  for (int i = 0; i < LEN; i++) { s[i] = (char) __vf_nondet_uchar(); __vf_assume(s[i] != 0);
+#ifdef SMALL_ALPHABET
+    // quick tier: every string over a small alphabet that spells a known code pair (en, GB), both delimiters and an unknown letter
+    __vf_assume(s[i] == 'e' || s[i] == 'n' || s[i] == 'G' || s[i] == 'B' || s[i] == '_' || s[i] == '.' || s[i] == 'x');
+#endif
+  }
   s[LEN] = 0;
   LocaleInfo::Info r = LocaleInfo::get(s);
 #ifndef ORACLE
   __vf_reach("returned");   // memory safety only: every access inside get() is checked by CBMC
   return;
 #endif
-  if (r.error) { check_fallback(r); __vf_reach("fallback"); }
+  Ref x = reference(s);
+  if (!x.success) { check_fallback(r); __vf_reach("fallback"); }
   else {
-    // split the input the way the documentation describes: language '_' country [ '.' charset ]
-    char lang[LEN + 1], country[LEN + 1]; int u = -1, d = LEN;
-    for (int i = 0; i < LEN; i++) if (s[i] == '_' && u < 0) u = i;
-    for (int i = LEN - 1; i >= 0; i--) if (s[i] == '.') d = i;
-    __vf_check(u >= 0 && u < d, "success only for inputs of the form language_COUNTRY[.charset]");
-    if (u >= 0 && u < d) {
-      for (int i = 0; i <= LEN; i++) lang[i] = i < u ? s[i] : 0;
-      for (int i = 0; i <= LEN; i++) country[i] = (u + 1 + i < d) ? s[u + 1 + i] : 0;
-      check_success(r, lang, country);
-    }
+    __vf_check(r.error == nullptr, "known language and country: no error");
+    __vf_check(r.languageCode == LocaleInfo::languageInfo[x.code_idx].code, "languageCode is the table entry of the named language");
+    __vf_check(r.countryCode == LocaleInfo::countryInfo[x.country_idx].code && r.country == LocaleInfo::countryInfo[x.country_idx].value, "country and countryCode are the table entry of the named country");
+    __vf_check((int) r.languages.size() == x.n, "languages: all table names for the code (exactly the given name when the language is given by name)");
+    int k = 0;
+    for (const char *l : r.languages) { if (k < x.n) __vf_check(l == LocaleInfo::languageInfo[x.names[k]].value, "languages: the table entries in table order"); k++; }
     __vf_reach("success");
   }
 }
